@@ -377,7 +377,7 @@ def replay_demotion(model, path):
 
 # ----------------------------------------------------------------------------------------------------------------- C13-5
 def _impl_fn(ex, name, self_ty):
-    cands = [n for n in ex.fns if n.endswith('::' + name) and 'closure' not in n and (ex.impl_self(n) or (None, ''))[1].split('<')[0] == self_ty]
+    cands = [n for n in ex.fns if n.endswith('::' + name) and 'closure' not in n and ((ex.impl_self(n) or (None, ''))[1] or '').split('<')[0] == self_ty]
     if len(cands) != 1:
         raise Inconclusive(f'{self_ty}::{name} not found: {cands}')
     return cands[0]
@@ -829,5 +829,62 @@ def c13_10(run):
                 claim.append(z3.BoolVal(any(e[0] == 'clear_account' for e in p.log)))       # parked transactions of the account sit behind the removed nonce: all cleared
             run.prove(f'every id handed back by the containers is untracked and reported; the failing transaction first, with the given reason; untouched ids stay tracked {lab}', p.pc, z3.And(*claim))
     if not n_removed:
+        raise Inconclusive('vacuity')
+    run.require_reached(*run.cur.reach)
+
+
+# ----------------------------------------------------------------------------------------------------------------- C13-11
+@obligation('C13', 'C13-11 RemovalCache::add: the first reason recorded for a transaction is kept; a new entry evicts only the oldest one and only when the cache is full; every other report survives; size stays within the limit')
+def c13_11(run):
+    ex, W = A.engine()
+    f = _impl_fn(ex, 'add', 'RemovalCache')
+    run.bound(cache='limit 1..2 entries, queue of 0..limit ids, every cached id is in the queue (the invariant new / add keep), all ids symbolic (the added id may alias any of them)')
+    n = 0
+    x = z3.BitVec('any_id', 256)
+    for limit in (1, 2):
+        for k in range(0, limit + 1):
+            for cached in ([tuple(c) for c in ([[]] + [[i] for i in range(k)] + ([[0, 1]] if k == 2 else []))]):
+                q = [z3.BitVec(f'queued{i}', 256) for i in range(k)]
+                ents = []
+                for i in cached:
+                    r = Obj('mempool::RemovalReason'); r.discr = 'Expired'; r.attrs['tag'] = f'old{i}'
+                    ents.append((q[i], r))
+                cache = B.struct(ex, 'RemovalCache', cache=M.new_map('HashMap<TransactionId, RemovalReason>', ents), remove_queue=M.new_vec('VecDeque<TransactionId>', list(q)), max_size=z3.BitVecVal(limit, 64))
+                new = Obj('mempool::RemovalReason'); new.discr = 'FailedExecution'; new.attrs['tag'] = 'new'
+                tid = z3.BitVec('added_id', 256)
+                st = ex.start(f, [B.cell(cache), tid, new])
+                if k == 2:
+                    st.pc.append(q[0] != q[1])
+                for i, p in enumerate(run.explore(ex, st, allow_havoc=(r'^Arguments::|fmt::',))):
+                    lab = f'[limit {limit}, queue {k}, cached {list(cached)}, path {i}]'
+                    if p.kind != 'return':
+                        run.prove(f'no panic {lab}', p.pc, z3.BoolVal(False), detail=p.info); continue
+                    n += 1
+                    post = ex.read(p, p.roots['args'][0].loc)
+                    c1 = [(kk, ex.deref_val(p, v).attrs.get('tag')) for kk, v in B.fld(ex, p, post, 'cache', 'HashMap').attrs['items']]
+                    q1 = [ex.deref_val(p, v) for v in B.fld(ex, p, post, 'remove_queue', 'VecDeque').attrs['items']]
+                    was_cached = z3.Or(*[tid == kk for kk, _ in ents]) if ents else z3.BoolVal(False)
+                    def tag_of(entries, key):
+                        """(present, tag-is) helper: returns dict tag -> condition"""
+                        out = {}
+                        for kk, t in entries:
+                            out[t] = z3.Or(out.get(t, z3.BoolVal(False)), kk == key)
+                        return out
+                    pre_t = tag_of([(kk, ex.deref_val(p, v).attrs.get('tag')) for kk, v in ents], x); post_t = tag_of(c1, x)
+                    pre_in = z3.Or(*pre_t.values()) if pre_t else z3.BoolVal(False); post_in = z3.Or(*post_t.values()) if post_t else z3.BoolVal(False)
+                    full = k == limit
+                    evicted = q[0] if (full and k > 0) else None
+                    same_tag = z3.And(*[post_t.get(t, z3.BoolVal(False)) == c for t, c in pre_t.items()]) if pre_t else z3.BoolVal(True)
+                    keep = z3.Implies(z3.And(pre_in, x != tid, *( [x != evicted] if evicted is not None else [])), z3.And(post_in, same_tag))
+                    run.prove(f'already reported => nothing changes (first reason kept) {lab}', p.pc,
+                              z3.Implies(was_cached, z3.And(z3.BoolVal(len(c1) == len(ents) and len(q1) == k), z3.Implies(pre_in, z3.And(post_in, same_tag)), *[a == b for a, b in zip(q1, q)])))
+                    run.prove(f'new id => reported with the given reason; every other report survives except the oldest one when the cache was full {lab}', p.pc,
+                              z3.Implies(z3.Not(was_cached), z3.And(z3.Implies(x == tid, post_t.get('new', z3.BoolVal(False))), keep,
+                                                                    z3.BoolVal(len(q1) == (k if full and k > 0 else k + 1)), q1[-1] == tid if q1 else z3.BoolVal(False),
+                                                                    *[a == b for a, b in zip(q1[:-1], q[1:] if full and k > 0 else q)])))
+                    ks = [kk for kk, _ in c1]
+                    run.prove(f'size stays within the limit and every cached id is still queued {lab}', p.pc,
+                              z3.And(z3.BoolVal(len(q1) <= limit and len(c1) <= limit), *[z3.Or(*[kk == qq for qq in q1]) if q1 else z3.BoolVal(False) for kk in ks]))
+    if not n:
         raise Inconclusive('vacuity')
     run.require_reached(*run.cur.reach)
